@@ -69,3 +69,9 @@ def rho_adversarial2() -> Renaming:
     # substrings, suffixes and prefixes of one another, not a chain
     return Renaming(["a", "xa", "a_b", "aa", "a1", "b", "ba", "abc", "a_", "aab", "b_a", "bab", "a1a", "ab_", "aaa",
                      "b1", "bb", "a_b_", "ab1", "aba", "xab", "ab"])
+
+
+def rho_adversarial3() -> Renaming:
+    # look-alikes of dotted names: 'p.a.b' next to 'p.a_b' / 'p.axb' (a dot read as a wildcard matches them)
+    return Renaming(["p", "a", "b", "c", "a_b", "a_c", "axb", "b_c", "a_b_c", "axc", "bxc", "d", "a_d", "axd", "b_d",
+                     "e", "a_e", "f", "a_f", "g", "a_g", "h", "a_h", "i", "a_i", "j", "a_j", "k", "a_k", "l", "a_l"])
